@@ -339,7 +339,21 @@ pub fn history(index: u64, mut rng: Rng, tier: Tier) -> Outcome {
         if k > 0 && rng.chance(1, 2) {
             signers.push(wallets[rng.below(k as u64) as usize]);
         }
-        let threshold = 1 + rng.below(signers.len() as u64);
+        // one history in eight has a wallet at (or just below) the signer limit of 256
+        let full = k == 0 && index % 8 == 3;
+        if full {
+            let target = 254 + rng.below(3) as usize;
+            let mut j = 0u64;
+            while signers.len() < target {
+                let mut key = [0u8; 65];
+                key[..8].copy_from_slice(&(index * 1000 + j).to_be_bytes());
+                key[64] = 1;
+                signers.push(Address::new_secp256k1(&key).unwrap());
+                j += 1;
+            }
+            o.count("wallets_at_signer_limit");
+        }
+        let threshold = if full { 1 } else { 1 + rng.below(signers.len() as u64) };
         let (dur, start) = if rng.chance(1, 2) { (rng.range(50, 400), v.epoch() + rng.range(-20, 40)) } else { (0, 0) };
         let funding = atto(1_000_000_000 + rng.below(1_000_000_000));
         let cp = ConstructorParams { signers: signers.clone(), num_approvals_threshold: threshold, unlock_duration: dur, start_epoch: start };
